@@ -112,6 +112,7 @@ struct Meta
   std::string fam, shape;
   double fscale = 1;  // magnitude of the terms summed in one residual evaluation (rounding scale of f)
   double w      = 1;  // weight the residual is multiplied with (units of f; the minimiser does not depend on it)
+  std::string start = "generic";  // stratum of the starting point of the vector arguments: origin / onezero / generic / at-min
   Known known;
 };
 
@@ -129,6 +130,9 @@ static void run_problem(const Meta & m, const F & f, StratBox & sb, bool fresh, 
     e.str("op", "begin").num("run", g_run).str("fam", m.fam).str("shape", m.shape).str("mode", mode_name(D));
     e.str("strat", sb.kind).num("sid", sb.sid).num("fresh", fresh ? 1 : 0).dbl("delta0", sb.p->get_delta());
     e.num("max_iter", o.max_iter).dbl("ftol", o.ftol).dbl("ptol", o.ptol).dbl("fscale", m.fscale).dbl("w", m.w);
+    // numdiff: the Jacobian comes from dr_numerical (explicitly, or Default without a jacobian member)
+    constexpr bool has_jac = requires(const F & ff, const Args &... aa) { ff.jacobian(aa...); };
+    e.str("start", m.start).num("numdiff", (D == Type::Numerical || (D == Type::Default && !has_jac)) ? 1 : 0);
     e.str("known", m.known.kind);
     if (m.known.kind == "lin") {
       e.mat("A", m.known.A).vec("b", m.known.b);
@@ -166,13 +170,17 @@ static void run_problem(const Meta & m, const F & f, StratBox & sb, bool fresh, 
   g_sink.emit(e);
 }
 
-// mode: 0 Numerical, 1 Analytic, 2 Default.  Callables without a jacobian member run Analytic requests as Default.
+// mode: 0 Numerical, 1 Analytic, 2 Default, 3 Default with the jacobian member hidden (falls back to numerical
+// differentiation).  Callables without a jacobian member run Analytic requests as Default.
 template<class F, class... Args>
 static void run_mode(int mode, const Meta & m, const F & f, StratBox & sb, bool fresh, const Opt & o, Args &... args)
 {
   constexpr bool has_jac = requires(const F & ff, const Args &... aa) { ff.jacobian(aa...); };
   if (mode == 0) {
     run_problem<Type::Numerical>(m, f, sb, fresh, o, args...);
+  } else if (mode == 3) {
+    const auto g = [&f](const auto &... a) { return f(a...); };
+    run_problem<Type::Default>(m, g, sb, fresh, o, args...);
   } else if (mode == 1) {
     if constexpr (has_jac) {
       run_problem<Type::Analytic>(m, f, sb, fresh, o, args...);
@@ -549,6 +557,34 @@ static double weight_of(long k, int fam, bool tiny_family)
   return WEIGHTS[(k + k / 4 + fam) % 4];  // k / 4: decorrelated from the start-radius cycle (k % 4)
 }
 
+// Starting-point strata of the vector arguments (dr_numerical scales its step with |x_j| and needs a fallback at
+// x_j == 0): which = 1 the origin (every coordinate exactly +0.0 / -0.0), 2 exactly one zero coordinate, 0 generic.
+// Zero starts run with w = 1, max_iter = 1000 and numerical differentiation (mode 0 or 3).
+struct ZeroStart
+{
+  int which = 0;
+  int mode  = 0;
+};
+static ZeroStart zero_start(long k, int fam, bool every2)
+{
+  ZeroStart z;
+  if (every2 ? k % 2 != 1 : k % 4 != 1) return z;
+  z.which = 1 + static_cast<int>((every2 ? k / 2 : k / 4) % 2);
+  z.mode  = ((every2 ? k / 4 : k / 8) + fam) % 2 == 0 ? 0 : 3;
+  return z;
+}
+template<typename V>
+static void apply_zero_start(const ZeroStart & z, vh::Rng & rng, V & x, std::string & label)
+{
+  if (z.which == 1) {
+    for (Eigen::Index j = 0; j < x.size(); ++j) x(j) = j % 2 == 1 ? -0.0 : 0.0;
+    label = "origin";
+  } else if (z.which == 2) {
+    x(rng.idx(static_cast<int>(x.size()))) = 0.0;
+    label = x.size() == 1 ? "origin" : "onezero";
+  }
+}
+
 // The Ptol test |D dx| < ptol n is not invariant to the units of f (D = column norms of J): what matters is ptol / w.
 // Judged strata keep ptol / w <= 1e-2 (ptol = 1e-3 only with w = 1); the few tiny-weight runs use the default
 // tolerances 1e-6, i.e. ptol / w >= 1 (the stratum in which a premature Ptol is a known finding).
@@ -598,40 +634,53 @@ static void run_family(int fam, long k, vh::Rng & rng, StratBox & sb, bool fresh
 #if VH_PART == 0
   Opt o = options(rng, k, fam, fam != 5);
   m.w   = weight_of(k, fam, false);
-  if (k % 3 == LIN_INT_AT_MIN && fam != 5) m.w = 1;
+  const ZeroStart zs = fam == 5 ? ZeroStart{} : zero_start(k, fam, fam == 1 || fam == 2);
+  const int lkind    = zs.which ? static_cast<int>((k / 2) % 2) : static_cast<int>(k % 3);  // zero starts: generic / consistent
+  const int rmode    = zs.which ? zs.mode : mode;
+  if (lkind == LIN_INT_AT_MIN && fam != 5) {
+    m.w     = 1;
+    m.start = "at-min";
+  }
+  if (zs.which) {
+    m.w        = 1;
+    o.max_iter = 1000;
+  }
   adapt_tolerances(o, m.w);
   if (fam == 0) {
     MatrixXd A;
     VectorXd b, x0;
     bool uq;
-    make_linear(rng, 6, 3, static_cast<int>(k % 3), A, b, x0, uq, m.fscale, m.w);
+    make_linear(rng, 6, 3, lkind, A, b, x0, uq, m.fscale, m.w);
+    apply_zero_start(zs, rng, x0, m.start);
     LinStatic<6, 3> f{A, b};
     Eigen::Vector3d x = x0;
     m.shape           = "static";
     m.known           = known_lin(A, b, uq);
-    run_mode(mode, m, f, sb, fresh, o, x);
+    run_mode(rmode, m, f, sb, fresh, o, x);
   } else if (fam == 1) {
     const int n = 2 + rng.idx(4), mm = n + 1 + rng.idx(4);
     MatrixXd A;
     VectorXd b, x0;
     bool uq;
-    make_linear(rng, mm, n, static_cast<int>(k % 3), A, b, x0, uq, m.fscale, m.w);
+    make_linear(rng, mm, n, lkind, A, b, x0, uq, m.fscale, m.w);
+    apply_zero_start(zs, rng, x0, m.start);
     LinDynamic f{A, b};
     VectorXd x = x0;
     m.shape    = "dynamic";
     m.known    = known_lin(A, b, uq);
-    run_mode(mode, m, f, sb, fresh, o, x);
+    run_mode(rmode, m, f, sb, fresh, o, x);
   } else if (fam == 2) {
     const int n = 3 + rng.idx(4), mm = n + 2 + rng.idx(3);
     MatrixXd A;
     VectorXd b, x0;
     bool uq;
-    make_linear(rng, mm, n, static_cast<int>(k % 3), A, b, x0, uq, m.fscale, m.w);
+    make_linear(rng, mm, n, lkind, A, b, x0, uq, m.fscale, m.w);
+    apply_zero_start(zs, rng, x0, m.start);
     // banded sparsity (kept well conditioned by the diagonal boost)
     for (int i = 0; i < mm; ++i)
       for (int j = 0; j < n; ++j)
-        if (std::abs(i - j) > 2 && k % 3 != LIN_INT_AT_MIN) A(i, j) = 0;
-    if (k % 3 == LIN_CONSISTENT) {
+        if (std::abs(i - j) > 2 && lkind != LIN_INT_AT_MIN) A(i, j) = 0;
+    if (lkind == LIN_CONSISTENT) {
       VectorXd xs(n);
       for (int j = 0; j < n; ++j) xs(j) = rng.uni(-3, 3);
       b = A * xs;
@@ -642,29 +691,31 @@ static void run_family(int fam, long k, vh::Rng & rng, StratBox & sb, bool fresh
     m.shape    = "sparse";
     m.known    = known_lin(A, b, uq);
     // a sparse Jacobian only exists through the jacobian member: Analytic or Default
-    run_mode(1 + static_cast<int>(k % 2), m, f, sb, fresh, o, x);
+    run_mode(zs.which ? zs.mode : 1 + static_cast<int>(k % 2), m, f, sb, fresh, o, x);
   } else if (fam == 3) {
     const int n2 = 1 + rng.idx(3), n = 2 + n2, mm = n + 2;
     MatrixXd A;
     VectorXd b, x0;
     bool uq;
-    make_linear(rng, mm, n, static_cast<int>(k % 3), A, b, x0, uq, m.fscale, m.w);
+    make_linear(rng, mm, n, lkind, A, b, x0, uq, m.fscale, m.w);
+    apply_zero_start(zs, rng, x0, m.start);
     LinMulti f{A, b};
     Eigen::Vector2d x1 = x0.head<2>();
     VectorXd x2        = x0.tail(n2);
     m.shape            = "multi";
     m.known            = known_lin(A, b, uq);
-    run_mode(mode, m, f, sb, fresh, o, x1, x2);
+    run_mode(rmode, m, f, sb, fresh, o, x1, x2);
   } else if (fam == 4) {
     MatrixXd A;
     VectorXd b, x0;
     bool uq;
-    make_linear(rng, 2, 1, static_cast<int>(k % 3), A, b, x0, uq, m.fscale, m.w);
+    make_linear(rng, 2, 1, lkind, A, b, x0, uq, m.fscale, m.w);
+    apply_zero_start(zs, rng, x0, m.start);
     LinStatic<2, 1> f{A, b};
     Eigen::Matrix<double, 1, 1> x = x0;
     m.shape                       = "static";
     m.known                       = known_lin(A, b, uq);
-    run_mode(mode, m, f, sb, fresh, o, x);
+    run_mode(rmode, m, f, sb, fresh, o, x);
   } else {
     const int n = 2 + rng.idx(3), mm = n + 2;
     MatrixXd A;
@@ -675,7 +726,7 @@ static void run_family(int fam, long k, vh::Rng & rng, StratBox & sb, bool fresh
     VectorXd x = x0;
     m.shape    = "dynamic";
     m.known    = known_lin(A, b, uq);
-    run_mode(mode, m, f, sb, fresh, o, x);
+    run_mode(rmode, m, f, sb, fresh, o, x);
   }
 #elif VH_PART == 1
   Opt o = options(rng, k, fam, true);
@@ -720,7 +771,15 @@ static void run_family(int fam, long k, vh::Rng & rng, StratBox & sb, bool fresh
   } else if (fam == 2) {
     smooth::SO3d Rt;
     Rt.setRandom();
-    const Eigen::Vector3d tt = rvec3(rng, 2.);
+    Eigen::Vector3d tt = rvec3(rng, 2.);
+    for (int i = 0; i < 3; ++i)
+      if (std::abs(tt(i)) < 0.2) tt(i) = tt(i) < 0 ? -0.2 - tt(i) * tt(i) : 0.2 + tt(i) * tt(i);  // minimiser away from zero coordinates
+    const ZeroStart zs = m.w < 1e-5 ? ZeroStart{} : zero_start(k, fam, false);
+    if (zs.which) {
+      m.w        = 1;
+      m.fscale   = 8.;
+      o.max_iter = 1000;
+    }
     AlignRt f;
     f.w = m.w;
     for (int i = 0; i < 4; ++i) {
@@ -734,11 +793,15 @@ static void run_family(int fam, long k, vh::Rng & rng, StratBox & sb, bool fresh
       R = Rt;
       t = tt;
     }
+    if (zs.which) {
+      R = Rt + rtan<3>(rng, 0.3);
+      apply_zero_start(zs, rng, t, m.start);
+    }
     m.shape    = "multi";
     m.known.g  = "{\"k\":\"B\",\"parts\":[{\"k\":\"SO3\"},{\"k\":\"R\",\"n\":3}]}";
     m.known.xt = coeff_vec(Rt);
     coeffs_of(m.known.xt, tt);
-    run_mode(mode, m, f, sb, fresh, o, R, t);
+    run_mode(zs.which ? zs.mode : mode, m, f, sb, fresh, o, R, t);
   } else {
     smooth::SO3d Rt;
     Rt.setRandom();
